@@ -11,6 +11,7 @@ import (
 	"sort"
 	"strings"
 	"sync"
+	"sync/atomic"
 )
 
 // Case is one request of the correspondence check: the line sent to the Lean driver and the
@@ -51,7 +52,12 @@ type Ctx struct {
 	Untied   []string
 	Notes    []string
 	Exhaustive bool
+
+	activity int64 // bumped by every Tie / Eval / Count / Nontrivial / Fail: the stall watchdog reads it
 }
+
+// Activity is a counter that moves whenever the runner registers anything.
+func (c *Ctx) Activity() int64 { return atomic.LoadInt64(&c.activity) }
 
 func NewCtx(prop, tier string, seed int64, driver string) *Ctx {
 	h := uint64(seed)
@@ -74,21 +80,28 @@ func (c *Ctx) N(quick, thorough int) int {
 
 // Tie registers one correspondence case.
 func (c *Ctx) Tie(req, impl string) {
+	atomic.AddInt64(&c.activity, 1)
 	c.mu.Lock()
 	c.cases = append(c.cases, Case{req, impl})
 	c.mu.Unlock()
 }
 
-func (c *Ctx) Eval() { c.mu.Lock(); c.Evals++; c.mu.Unlock() }
+func (c *Ctx) Eval() { atomic.AddInt64(&c.activity, 1); c.mu.Lock(); c.Evals++; c.mu.Unlock() }
 
 // Nontrivial counts a distinct non-trivial case by its signature.
 func (c *Ctx) Nontrivial(sig string) {
+	atomic.AddInt64(&c.activity, 1)
 	c.mu.Lock()
 	c.distinct[sig] = struct{}{}
 	c.mu.Unlock()
 }
 
-func (c *Ctx) Count(bucket string) { c.mu.Lock(); c.Dist[bucket]++; c.mu.Unlock() }
+func (c *Ctx) Count(bucket string) {
+	atomic.AddInt64(&c.activity, 1)
+	c.mu.Lock()
+	c.Dist[bucket]++
+	c.mu.Unlock()
+}
 
 func (c *Ctx) Sample(s interface{}) {
 	c.mu.Lock()
@@ -101,6 +114,7 @@ func (c *Ctx) Sample(s interface{}) {
 // Fail records a property failure on the implementation. At most 5 are kept per (kind,key,what)
 // class; all are counted.
 func (c *Ctx) Fail(kind, key, what string, input interface{}, observed, expected string) {
+	atomic.AddInt64(&c.activity, 1)
 	c.mu.Lock()
 	defer c.mu.Unlock()
 	cls := kind + "|" + key + "|" + what
